@@ -463,23 +463,22 @@ def run_batch(prop, tier, batch_seed, nruns, workers, soft_deadline_s, chunk=25,
     b.first_seed = seeds[0] if seeds else None
     b.last_seed = seeds[-1] if seeds else None
     tasks = []
-    for i in range(0, len(seeds), chunk):
-        tasks.append(("seeded", seeds[i:i + chunk]))
-    if explicit:
+    if explicit:       # regressions and bounded-exhaustive histories first: a deadline must not skip them
         for i in range(0, len(explicit), chunk * 4):
             tasks.append(("explicit", explicit[i:i + chunk * 4]))
+    for i in range(0, len(seeds), chunk):
+        tasks.append(("seeded", seeds[i:i + chunk]))
     b.truncated = False
     b.exhaustive_runs = 0
     b.derived_runs = 0
     ctx = multiprocessing.get_context("fork")
+    from concurrent.futures import wait, FIRST_COMPLETED
     try:
         with ProcessPoolExecutor(max_workers=workers, mp_context=ctx) as ex:
             futs = {}
             it = iter(tasks)
-            inflight = 0
 
             def submit_next():
-                nonlocal inflight
                 try:
                     kind, payload = next(it)
                 except StopIteration:
@@ -489,48 +488,46 @@ def run_batch(prop, tier, batch_seed, nruns, workers, soft_deadline_s, chunk=25,
                 else:
                     f = ex.submit(_work_explicit, prop, payload, per_run_timeout)
                 futs[f] = kind
-                inflight += 1
                 return True
 
-            for _ in range(workers * 2):
-                if not submit_next():
-                    break
-            while futs:
-                done = next(as_completed(list(futs)))
-                kind = futs.pop(done)
-                r = done.result()
+            def take(f):
+                kind = futs.pop(f)
+                r = f.result()
                 if "harness_error" in r:
                     b.harness_errors.append(r["harness_error"])
-                    for f in futs:
-                        f.cancel()
-                    break
+                    return False
                 for s in r["runs"]:
                     b.absorb(s)
                     if kind == "explicit":
                         b.exhaustive_runs += 1
                     if s.get("derived"):
                         b.derived_runs += 1
-                if _real_time.monotonic() - t0 > soft_deadline_s:
-                    b.truncated = True
-                    for f in list(futs):
-                        f.cancel()
-                    # drain what is already running
-                    for f in list(futs):
-                        if not f.cancelled():
-                            try:
-                                rr = f.result()
-                                if "harness_error" in rr:
-                                    b.harness_errors.append(rr["harness_error"])
-                                else:
-                                    for s in rr["runs"]:
-                                        b.absorb(s)
-                                        if futs[f] == "explicit":
-                                            b.exhaustive_runs += 1
-                            except Exception:
-                                pass
-                    futs.clear()
+                return True
+
+            for _ in range(workers * 2):
+                if not submit_next():
                     break
-                submit_next()
+            stop = False
+            while futs and not stop:
+                done, _ = wait(list(futs), return_when=FIRST_COMPLETED)
+                for f in done:
+                    if not take(f):
+                        stop = True
+                if stop:
+                    break
+                if _real_time.monotonic() - t0 > soft_deadline_s:
+                    # soft wall-clock cap: finish what is running, start nothing new, say so in the evidence
+                    b.truncated = True
+                    while futs:
+                        done, _ = wait(list(futs), return_when=FIRST_COMPLETED)
+                        for f in done:
+                            if not take(f):
+                                stop = True
+                    break
+                for _ in range(len(done)):
+                    submit_next()
+            for f in list(futs):
+                f.cancel()
     except BrokenProcessPool as e:
         b.harness_errors.append("worker process died (hang watchdog or crash): %r" % (e,))
     b.wall = _real_time.monotonic() - t0
